@@ -30,9 +30,15 @@ const (
 	// built-in rules; those functions belong to that call.
 	StructTagLocalFn Kind = "struct-tag-after-call-local-functions"
 	VarLocalFn       Kind = "var-after-call-local-functions"
+	// StructTagWide: the tagged field is the 70th field of its struct (66 untagged and 3 tagged fields before it).
+	StructTagWide Kind = "struct-tag-field-70"
+	// MapLarge: the entry stands among 24 other entries that no rule mentions.
+	MapLarge Kind = "map-25-entries"
+	// StructRMAfterPlain: the untagged type is validated without rules first, then with the per-call rule.
+	StructRMAfterPlain Kind = "struct-rm-after-plain-call"
 )
 
-var All = []Kind{StructTag, StructRM, Var, Map, MapIface, SliceMap, Url, UrlEsc, StructTagHist, StructTagOtherTag, StructTagLocalFn, VarLocalFn}
+var All = []Kind{StructTag, StructRM, Var, Map, MapIface, SliceMap, Url, UrlEsc, StructTagHist, StructTagOtherTag, StructTagLocalFn, VarLocalFn, StructTagWide, MapLarge, StructRMAfterPlain}
 
 // Box is the named carrier type for per-call rules.
 type Box[T any] struct{ F T }
@@ -40,8 +46,10 @@ type Box[T any] struct{ F T }
 // PathPrefix is the path under which the value is reported by each carrier ("" = no path).
 func PathPrefix(k Kind, v reflect.Value) string {
 	switch k {
-	case StructTag, StructTagHist, StructTagOtherTag, StructTagLocalFn:
+	case StructTag, StructTagHist, StructTagOtherTag, StructTagLocalFn, StructTagWide, StructRMAfterPlain:
 		return "F"
+	case MapLarge:
+		return "map[k]"
 	case StructRM:
 		return "Box[" + typeArgName(v.Type()) + "].F"
 	case Map, MapIface:
@@ -90,6 +98,30 @@ func TagType2(t reflect.Type, rules string) reflect.Type {
 	}
 	st := reflect.StructOf([]reflect.StructField{{Name: "F", Type: t, Tag: reflect.StructTag(`valid:"` + rules + `" alt:"required|alt1,eq=-77|alt2"`)}})
 	st2Cache[k] = st
+	return st
+}
+
+var wideCache = map[stKey]reflect.Type{}
+
+// TagTypeWide: struct { P00..P65 int; Q0..Q2 string `valid:"le=100"`; F T `valid:"rules"` }.
+func TagTypeWide(t reflect.Type, rules string) reflect.Type {
+	k := stKey{t, rules}
+	if st, ok := wideCache[k]; ok {
+		return st
+	}
+	if len(wideCache) > 1024 {
+		wideCache = map[stKey]reflect.Type{}
+	}
+	var sf []reflect.StructField
+	for i := 0; i < 66; i++ {
+		sf = append(sf, reflect.StructField{Name: "P" + string(rune('A'+i/26)) + string(rune('a'+i%26)), Type: reflect.TypeOf(0)})
+	}
+	for i := 0; i < 3; i++ {
+		sf = append(sf, reflect.StructField{Name: "Q" + string(rune('a'+i)), Type: reflect.TypeOf(""), Tag: `valid:"le=100"`})
+	}
+	sf = append(sf, reflect.StructField{Name: "F", Type: t, Tag: reflect.StructTag(`valid:"` + rules + `"`)})
+	st := reflect.StructOf(sf)
+	wideCache[k] = st
 	return st
 }
 
@@ -218,6 +250,26 @@ func Validate(k Kind, v reflect.Value, rules string) (string, bool) {
 		p := reflect.New(st)
 		p.Elem().Field(0).Set(v)
 		err = valid.Struct(p.Interface())
+	case StructTagWide:
+		st := TagTypeWide(v.Type(), rules)
+		p := reflect.New(st)
+		p.Elem().Field(st.NumField() - 1).Set(v)
+		err = valid.Struct(p.Interface())
+	case MapLarge:
+		m := reflect.MakeMap(reflect.MapOf(reflect.TypeOf(""), v.Type()))
+		for i := 0; i < 24; i++ {
+			m.SetMapIndex(reflect.ValueOf("filler"+string(rune('a'+i))), v)
+		}
+		m.SetMapIndex(reflect.ValueOf("k"), v)
+		err = valid.Map(m.Interface(), valid.RM{"k": rules})
+	case StructRMAfterPlain:
+		st := TagType(v.Type(), "")
+		first := reflect.New(st)
+		first.Elem().Field(0).Set(v)
+		_ = valid.Struct(first.Interface())
+		p := reflect.New(st)
+		p.Elem().Field(0).Set(v)
+		err = valid.Struct(p.Interface(), valid.RM{"F": rules})
 	case StructTagLocalFn:
 		st := TagType(v.Type(), rules)
 		first := reflect.New(st)
